@@ -8,10 +8,10 @@ at least one of them.  Footprints are the *exact* pieces `Spec/Footprint.lean` d
 register values of the decoded operation, not Vela's per-tile address hulls; so an emitted stream
 may contain more waits than this relation needs, never fewer.
 
-SHRAM (region `REGION_SHRAM` of a DMA): a kernel operation writes its IFM buffers `[0, IB_END)` and its
-accumulators `[AB_START, top)` (banks of 1 KiB), where `top` is the first bank it may not use: the LUT
-window when it uses a lookup table, else the end of the usable SHRAM.  A table-lookup activation reads
-its table slot in the LUT window.
+SHRAM (region `REGION_SHRAM` of a DMA): a kernel operation writes its IFM buffers `[0, IB_END)` and the
+accumulators it really needs above `AB_START` (computed from the programmed OFM block and `ACC_FORMAT`,
+not from any allocator's idea of where they end).  A table-lookup activation reads its table slot in the
+LUT window, the last two banks of the SHRAM (bank counts are hand-written per configuration).
 -/
 namespace VelaVerif.Conflicts
 open VelaVerif.Decode VelaVerif.Footprint VelaVerif.Mem VelaVerif.Isa
@@ -21,28 +21,59 @@ open VelaVerif.Decode VelaVerif.Footprint VelaVerif.Mem VelaVerif.Isa
     (`max_outstanding_dma`, `max_outstanding_kernels`, regenerated) are not smaller. -/
 def hwCaps (isU65 : Bool) : AsyncHw.Caps := ⟨if isU65 then 2 else 1, 2⟩
 
+/-- SHRAM of an accelerator configuration (hand-written hardware facts, independent of Vela's
+    `ArchitectureFeatures`): number of 1 KiB banks; the activation LUT occupies the last two banks. -/
 structure Shram where
-  usableBytes : Nat       -- banks a kernel may use × bank size
+  totalBytes : Nat
   lutBase : Nat
   lutBytes : Nat := 2048
-deriving Repr, Inhabited
+deriving Repr, DecidableEq, Inhabited
 
 def bankBytes : Nat := 1024
 
+/-- SHRAM banks by configuration name: Ethos-U55-32/64: 16, Ethos-U55-128: 24, Ethos-U55-256 and
+    Ethos-U65-256/512: 48 (`Props/C04.lean`, `shram_table_agrees`: the regenerated table says the same). -/
+def hwShramBanks (name : String) : Nat :=
+  if name = "ethos-u55-32" ∨ name = "ethos-u55-64" then 16
+  else if name = "ethos-u55-128" then 24
+  else 48
+
+def hwShram (name : String) : Shram :=
+  let banks := hwShramBanks name
+  { totalBytes := banks * bankBytes, lutBase := (banks - 2) * bankBytes, lutBytes := 2 * bankBytes }
+
 def seg (lo hi : Nat) : List Piece := if lo < hi then [⟨lo, hi - lo, 0⟩] else []
 
-def blockShram (s : Shram) (b : BlockOp) : List Access :=
-  let lut := lutIndex b.activation
-  let top := if lut.isSome then min s.lutBase s.usableBytes else s.usableBytes
-  [ ⟨REGION_SHRAM, true, "SHRAM-IB", seg 0 (min (b.ibEnd * bankBytes) top)⟩,
-    ⟨REGION_SHRAM, true, "SHRAM-AB", seg (b.abStart * bankBytes) top⟩ ] ++
-  (match lut with
-   | some idx =>
-     -- 8-bit tables: 256-byte slot `idx`; wider tables take the whole window
-     let sz := if b.ifm.elemBytes = 1 ∧ b.ofm.elemBytes = 1 then 256 else s.lutBytes
-     let lo := s.lutBase + idx * sz
-     [⟨REGION_SHRAM, false, "LUT", seg lo (min (lo + sz) (s.lutBase + s.lutBytes))⟩]
-   | none => [])
+/-- accumulator element width by `ACC_FORMAT`: 0 = 32 bit, 1 = 40 bit, 2 = 16 bit -/
+def accBits (accFormat : Nat) : Nat := if accFormat = 1 then 40 else if accFormat = 2 then 16 else 32
+
+/-- Bytes of the accumulators a kernel operation really uses, from the programmed OFM block and
+    accumulator format only: two buffers (ping-pong) of `H·W·round_up(D, 8)` accumulators, each buffer
+    rounded up to whole banks.  (A 1-row OFM with a 1-row kernel accumulates one row.)  This is a lower
+    bound of what any allocator must have set aside above `AB_START` — no bank granule is added. -/
+def accBytes (b : BlockOp) : Nat :=
+  let h := if b.ofm.height = 1 ∧ b.kernelH = 1 then 1 else b.blkH
+  let one := (h * b.blkW * (ceilDiv b.blkD 8 * 8) * accBits b.accFormat) / 8
+  2 * (ceilDiv one bankBytes * bankBytes)
+
+/-- SHRAM bytes a kernel operation writes: the IFM buffers `[0, IB_END)` as programmed, and — for every
+    operation that accumulates (all but elementwise) — the accumulators `[AB_START, AB_START + accBytes)`. -/
+def shramWrites (s : Shram) (b : BlockOp) : List Access :=
+  [ ⟨REGION_SHRAM, true, "SHRAM-IB", seg 0 (min (b.ibEnd * bankBytes) s.totalBytes)⟩ ] ++
+  (if b.kind == .elementwise then []
+   else [⟨REGION_SHRAM, true, "SHRAM-AB", seg (b.abStart * bankBytes) (min (b.abStart * bankBytes + accBytes b) s.totalBytes)⟩])
+
+/-- the table slot a table-lookup activation reads -/
+def lutRead (s : Shram) (b : BlockOp) : List Access :=
+  match lutIndex b.activation with
+  | some idx =>
+    -- 8-bit tables: 256-byte slot `idx`; wider tables take the whole window
+    let sz := if b.ifm.elemBytes = 1 ∧ b.ofm.elemBytes = 1 then 256 else s.lutBytes
+    let lo := s.lutBase + idx * sz
+    [⟨REGION_SHRAM, false, "LUT", seg lo (min (lo + sz) (s.lutBase + s.lutBytes))⟩]
+  | none => []
+
+def blockShram (s : Shram) (b : BlockOp) : List Access := shramWrites s b ++ lutRead s b
 
 def blockAcc (s : Shram) (b : BlockOp) : List Access :=
   [ ⟨b.ifm.region, false, "IFM", fmPieces b.ifm 0 0 0⟩ ] ++
